@@ -62,7 +62,7 @@ class Ctx:
             status = 'note'
         self.results.append(Result(rule, key, status, msg, fq, line, file, nec, detail))
 
-    def ok(self, rule, key, msg, func=None, line=None, detail=None):
+    def ok(self, rule, key, msg, func=None, line=None, detail=None, nec=True):
         self.add(rule, key, 'ok', msg, func, line, True, detail)
 
     def bad(self, rule, key, msg, func=None, line=None, nec=True, detail=None):
